@@ -2,6 +2,7 @@ package interp
 
 import (
 	"fmt"
+	"os"
 	"go/token"
 	"go/types"
 	"runtime"
@@ -148,6 +149,15 @@ func (w *Worker) tick(fr *frame) {
 func (fr *frame) visitInstr(instr ssa.Instruction) continuation {
 	w := fr.w
 	w.tick(fr)
+	if traceFn != "" && strings.Contains(fr.fn.String(), traceFn) {
+		defer func() {
+			if v, ok := instr.(ssa.Value); ok {
+				fmt.Fprintf(os.Stderr, "TRACE %s: %s = %s  => %s\n", fr.fn.Name(), v.Name(), instr, w.show(fr.env[v]))
+			} else {
+				fmt.Fprintf(os.Stderr, "TRACE %s: %s\n", fr.fn.Name(), instr)
+			}
+		}()
+	}
 	switch instr := instr.(type) {
 	case *ssa.DebugRef:
 	case *ssa.UnOp:
@@ -563,3 +573,5 @@ func (w *Worker) constValue(c *ssa.Const) Value {
 }
 
 func (w *Worker) funcName(fn *ssa.Function) string { return strings.TrimSpace(fn.String()) }
+
+var traceFn = os.Getenv("GOSMT_TRACE")
